@@ -802,6 +802,9 @@ class CircuitTemplate(AbstractBaseTemplate):
             for key, value in node_values.items():
                 *node_id, op, var = key.split("/")
                 target_nodes = self.get_nodes(node_id)
+                if not target_nodes:
+                    raise PyRatesException(f'Found a value update for `{key}`, but no node of the circuit matches '
+                                           f'`{"/".join(node_id)}`. This may be due to a typo in the node path.')
                 for i, n in enumerate(target_nodes):
                     if n not in values:
                         values[n] = dict()
@@ -1419,6 +1422,9 @@ class CircuitTemplate(AbstractBaseTemplate):
         # extract target nodes from network
         *node_id, op, var = target.split('/')
         target_nodes = self.get_nodes(node_id, var_identifier=(op, var))
+        if not target_nodes:
+            warn(PyRatesWarning(f'The extrinsic input addressed to `{target}` is ignored: variable {var} has not been '
+                                f'found on operator {op} of any node matching `{"/".join(node_id)}`.'))
 
         # create input node
         node_key, op_key, var_key, in_node = create_input_node(var, inp, adaptive, sim_time, vectorized_net)
